@@ -163,7 +163,7 @@ def gen_c13(rng, profile):
     from . import family as F
     kn = gen.gen_knobs(rng, profile)
     kn.update({"dialect_support": True, "p_dialect_support": 0.85, "cfg_dialect": False,
-               "threads": False, "aborts": False, "codecs": False,
+               "threads": profile.get("batch") == "threads", "aborts": False, "codecs": False,
                "p_alias": 0.35})
     if profile.get("batch") == "codec":
         # bytes are a native type of MessagePack: "the same logical document"
@@ -664,11 +664,38 @@ def gen_c12(rng, profile):
             op["dialect"] = r.choice(["D1", "D2"])
         return op
 
+    batch = profile.get("batch")
+    # open finding K19 (one decoder object used by two threads): avoided in 80 % of runs
+    avoid_shared_codecs = "shared_codec_threads" in (profile.get("avoid_open") or []) \
+        and r.random() < 0.8
     for _ in range(nops):
         if cur < len(chunks) and r.random() < 0.3:
             ops.append({"k": "define", "chunk": cur})
             cur += 1
             defined = fam.defined_after(cur)
+        elif batch == "threads" and r.random() < 0.4:
+            # several decodes at once (registry refill vs fast path, first dispatches)
+            progs = [[decode_event() for _ in range(r.choice([1, 1, 2]))]
+                     for _ in range(r.randint(2, 3))]
+            if avoid_shared_codecs:
+                progs = [[e for e in prog if e["k"] != "codec"] for prog in progs]
+                progs = [pg for pg in progs if pg]
+                if len(progs) < 2:
+                    ops.append(decode_event())
+                    continue
+            ops.append({"k": "conc", "progs": progs, "sched": gen.gen_schedule(r),
+                        "sseed": r.getrandbits(32)})
+            for prog in progs:
+                ops.append({k: v for k, v in prog[0].items()})
+        elif batch == "abort" and r.random() < 0.35:
+            ev = decode_event()
+            retry = dict(ev)
+            if r.random() < 0.5:
+                ev["abort_gen"] = r.randint(1, 40)
+            else:
+                ev["abort_at"] = int(2 ** r.uniform(0, 12))
+            ops.append(ev)
+            ops.append(retry)
         else:
             ops.append(decode_event())
     while cur < len(chunks):
@@ -890,7 +917,8 @@ EXECUTORS["C12"] = exec_c12
 def gen_c15(rng, profile):
     from . import family as F
     kn = gen.gen_knobs(rng, profile)
-    kn.update({"threads": False, "aborts": False, "codecs": True, "sub_in_base": False,
+    kn.update({"threads": profile.get("batch") == "threads", "aborts": False, "codecs": True,
+               "sub_in_base": False,
                "cfg_dialect": False})
     if rng.random() < 0.6:
         kn["chunks"] = rng.choice([2, 3])
